@@ -741,6 +741,15 @@ def l10_mask_exclusions(prog, ctx, rule="L10"):
                 continue
             calls = [x for x in part.walk() if x.k == "CallExpr"]
             okp = len(calls) == 1 and calls[0].j.get("callee") in ("strcmp", "strcoll") and any(a.string_value() in (".", "..") for a in calls[0].call_args())
+            if okp:
+                # ... and it says "the name is NOT that directory entry": strcmp(name, ".") != 0 / strcmp(name, "..") (truthy)
+                pt = part.strip()
+                differs = (pt is calls[0]) or (pt.k == "BinaryOperator" and pt.j.get("op") == "!=" and 0 in (pt.children[0].const_value(), pt.children[1].const_value())) \
+                    or (pt.k == "ImplicitCastExpr")
+                equal = (pt.k == "BinaryOperator" and pt.j.get("op") == "==" and 0 in (pt.children[0].const_value(), pt.children[1].const_value())) or (
+                    pt.k == "UnaryOperator" and pt.j.get("op") == "!")
+                if equal and not differs:
+                    bad = part
             if not okp:
                 bad = part
         if bad is not None:
